@@ -480,6 +480,88 @@ def run(prog, rep, tier):
     if n_sites < 4:
         raise CheckerError("R14.7: only %d chrono conversion sites found in scope (expected at least 4)" % n_sites)
 
+    # ------------------------------------------------------------ R14.8 a signed offset applies its sign to every term
+    # Where a FixedOffset is built from hand-written arithmetic (sign, hours, minutes) the sign has to
+    # reach every additive term: `sign*h*3600 + m*60` turns -03:30 into -02:30.  Applies to any
+    # FixedOffset::east_opt/west_opt call in the binary whose argument is a sum; calls that take the
+    # offset from chrono's own %z parser have nothing to check.
+    R148 = rep.rule("R14.8", "hand-written UTC-offset arithmetic applies the sign to every term")
+
+    def _tree(b_, op_, depth=0):
+        if op_[0] == "k":
+            return ("k", op_[2])
+        l_ = op_local(op_)
+
+        def _sign_or_leaf():
+            cs = set()
+            for x in b_.origins(op_):
+                if x[0] == "const":
+                    try:
+                        cs.add(int(x[1]))
+                    except Exception:
+                        cs.add("?")
+                else:
+                    cs.add("?")
+            if cs and "?" not in cs and any(isinstance(c_, int) and c_ < 0 for c_ in cs) and all(abs(c_) <= 1 for c_ in cs):
+                return ("sign", l_)
+            return ("leaf", l_)
+        if op_[0] in ("cp", "mv") and len(op_[1]) != 1:
+            return _sign_or_leaf()
+        if l_ is None or depth > 12:
+            return ("leaf", None)
+        ds_ = b_.defs.get(l_, [])
+        if len(ds_) == 1 and ds_[0][1] != "call":
+            rv_ = ds_[0][2]
+            if rv_[0] == "use":
+                return _tree(b_, rv_[1], depth + 1)
+            if rv_[0] == "cast":
+                return _tree(b_, rv_[2], depth + 1)
+            if rv_[0] == "bin":
+                opn = rv_[1].replace("WithOverflow", "").replace("Unchecked", "")
+                return (opn, _tree(b_, rv_[2], depth + 1), _tree(b_, rv_[3], depth + 1))
+            if rv_[0] == "un" and rv_[1] == "Neg":
+                return ("Neg", _tree(b_, rv_[2], depth + 1))
+        # a sign variable: every origin is a small constant and one of them is negative
+        cs = set()
+        for x in b_.origins(op_):
+            if x[0] == "const":
+                try:
+                    cs.add(int(x[1]))
+                except Exception:
+                    cs.add("?")
+            else:
+                cs.add("?")
+        if cs and "?" not in cs and any(isinstance(c_, int) and c_ < 0 for c_ in cs) and all(abs(c_) <= 1 for c_ in cs):
+            return ("sign", l_)
+        return ("leaf", l_)
+
+    def _has_sign(t_):
+        if t_[0] in ("sign", "Neg"):
+            return True
+        if t_[0] == "Mul" or t_[0] == "Div":
+            return _has_sign(t_[1]) or _has_sign(t_[2])
+        return False
+
+    def _terms(t_):
+        if t_[0] in ("Add", "Sub"):
+            return _terms(t_[1]) + _terms(t_[2])
+        return [t_]
+    n148 = 0
+    for fb_ in prog.bodies():
+        if not (fb_.path.startswith("s4::") or fb_.path.startswith("s4lib::data::datetime")) or "_tests" in fb_.path:
+            continue
+        for c in fb_.live_calls():
+            if c.d.startswith("chrono::FixedOffset::") and c.d.split("::")[-1] in ("east_opt", "west_opt", "east", "west") and c.args and c.args[0][0] != "k":
+                n148 += 1
+                tr_ = _tree(fb_, c.args[0])
+                ts_ = _terms(tr_)
+                signed = [_has_sign(t_) for t_ in ts_]
+                rep.examined(R148, "%s|%s" % (fb_.path, c.d.split("::")[-1]), sample={"site": fb_.path.split("::")[-1], "line": c.line, "additive_terms": len(ts_), "terms_carrying_the_sign": sum(signed)})
+                if len(ts_) > 1 and any(signed) and not all(signed):
+                    rep.violation(R148, "%s|%s|sign" % (fb_.path, c.d.split("::")[-1]), "%s (line %d): the UTC offset is computed as a sum of %d terms of which only %d carry the sign; "
+                                  "a negative offset with non-zero minutes comes out wrong (-03:30 becomes -02:30, -00:45 becomes +00:45)" % (fb_.path.split("::")[-1], c.line, len(ts_), sum(signed)))
+    rep.examined(R148, "fixedoffset-arithmetic-sites", nontrivial=False, sample={"FixedOffset constructor calls with a computed argument": n148})
+
     return rep.finish(
         "Static necessary-condition check of the CLI datetime-filter path: the relative-offset grammar is anchored (regular-language analysis of "
         "the const-evaluated pattern), a bare date is completed to 00:00:00 in value and pattern together, zone-less values are parsed in the "
